@@ -67,6 +67,11 @@ Theorem c20_run_once_p_ends : forall ds s,
 Proof. exact run_once_p_ends. Qed.
 Print Assumptions c20_run_once_p_ends.
 
+(* the main loop (RunForever): whatever the ticks bring, no run follows a run that returned an error *)
+Theorem c20_main_loop : forall ticks, Forall (fun r => snd r = OutOk) (removelast (run_forever ticks)).
+Proof. exact run_forever_prefix_ok. Qed.
+Print Assumptions c20_main_loop.
+
 (* a transient refresh failure (one failed describe, then success) does not end the run *)
 Example c20_prelude_ex : prelude [false; true; true] = PGo true /\ prelude [false; false] = PStop /\ prelude [false; true; false; true; false] = PGo true.
 Proof. repeat split. Qed.
